@@ -21,6 +21,7 @@ ASSUMPTIONS = ['the largest admissible lag (w_max) is mirrored from the implemen
                'cases whose windowing criterion is within 1e-9 of zero at a decision lag are skipped and counted',
                'fluctuations are taken from the observable (their correctness is C01)']
 EXHAUSTIVE = True
+REPEAT = 2      # every case is evaluated twice in the same process: the second verdict must equal the first (call-history oracle)
 CHUNK = 2
 
 PARAMS = [{'S': 2.0}, {'S': 0}, {'S': 1}, {'S': 3.5}, {'tau_exp': 2, 'N_sigma': 1}, {'tau_exp': 2, 'N_sigma': 0},
